@@ -9,6 +9,11 @@ from hypothesis import strategies as st
 
 from pbt.core import HarnessError, Outcome
 
+TECHNIQUE = "Hypothesis-generated operation histories + exhaustive short histories, judged by ledger invariants (net-worth conservation, bounds, potential argument)"
+LEVEL_TEXT = ("Exploration: every generated/enumerated history of store operations is checked step by step against invariants derived from the "
+              "statement (exact charging, free failures, capacity clamp, no energy creation, bounded spend, no raise). All op sequences up to depth 2 "
+              "(quick) / 3 (thorough) over a 22-op alphabet on 6 configurations are enumerated completely; longer histories are sampled.")
+LEVEL_NOTE = "Trusts the public getters (get_balance/get_debt/get_state) as the observation of the ledger; amounts restricted to non-negative ints; background regeneration thread not started."
 PROPERTY = "C04"
 BUDGET = {"quick": 16000, "thorough": 400000}
 RULE = ("Generated: store configuration (capacities drawn from {0,0,1..40}, debt limit, interest) x up to 30 "
